@@ -18,6 +18,11 @@ CHECKS = {
   text="encode_refframe / wire_refframe / encodeWire_refframe: for every message tree, session, clock value and encoding mode, every successful result of the model encoder (and of the encode+latin-1 step of send_msg) is a RefFrame: 8=…|9=n|35=…|…|10=ddd| with n the exact byte count and ddd the byte sum mod 256 in three digits; encodeWire_refused_unchanged: text outside latin-1 is refused with the number handed back. The model is compared byte for byte with Codec.encode and with the bytes a real connection hands to its transport; all transport writes of scripted session histories are parsed by an independent reference parser.",
   ref="DESIGN.md §6 C02",
   note=DEFAULT_NOTE + " History part ('all frames emitted during arbitrary session histories'): by the single call site of transport.write in send_msg plus dynamic capture of all writes in scripted histories; not a theorem over the session model yet."),
+ "C01": dict(
+  technique="Lean 4 proof (framing layer + encoder shape proved for all messages; group reconstruction lemma in progress) over hand-written encoder/decoder models + bidirectional differential correspondence",
+  text="Proved for every BeginString/table/field list: the encoder's output is mkFrame(header fields ++ wire-order body fields) (encode_is_mkFrame), and the decoder on any structurally valid frame passes every framing check, consumes the whole frame, returns the bytes unchanged and enters its field loop with exactly the frame's fields and the right CheckSum expectation (decode_valid_frame), also when values contain '8=FIX.', '10=' or '='. The remaining obligation (the field loop rebuilds every wfTop container, stepAll_wfTop) is being proved; until it lands the group layer rests on correspondence: model and implementation compared in both directions on messages over all 29 group tags with nesting, and the theorem hypothesis wfTop is evaluated by the compiled model on every generated message.",
+  ref="DESIGN.md §6 C01",
+  note=DEFAULT_NOTE),
 }
 NOT_YET = "check under construction in this build round (model and theorems planned in DESIGN.md §6); not yet claimed"
 
